@@ -27,7 +27,7 @@ func (m *vNamedMapper) GetHandler(name string) (context.Handler, bool) {
 }
 
 func vServeSpec(cacheSize uint32, rewrite string, methods0 []string) *Spec {
-	return &Spec{CacheSize: cacheSize, Rules: []*Rule{{Paths: []*Path{
+	return &Spec{CacheSize: cacheSize, ClientMaxBodySize: 2, Rules: []*Rule{{Paths: []*Path{
 		{PathPrefix: "/a", RewriteTarget: rewrite, Backend: "b0", Methods: methods0},
 		{PathPrefix: "/", Backend: "b1"},
 	}}}}
@@ -58,13 +58,16 @@ func verifC12_ServeCache() {
 	for k := 0; k < verifBound("history"); k++ {
 		path := paths[verifChoose("req.path", len(paths))]
 		method := []string{"GET", "POST"}[verifChoose("req.method", 2)]
+		// the server limits request bodies to 2 bytes: a body of 3 gets 413 with and without cache
+		blen := []int{0, 3}[verifChoose("req.bodyLength", 2)]
 		var st [2]int
 		var called [2][2]int
 		var seen [2][2]string
 		for i, m := range []*mux{plain, cached} {
 			mp := []*vNamedMapper{mapPlain, mapCached}[i]
 			before := [2]int{mp.b[0].calls, mp.b[1].calls}
-			std := &http.Request{Method: method, Host: "h", URL: &url.URL{Path: path}, Header: http.Header{}, Body: &vReqBody{}, RemoteAddr: "9.9.9.9:1"}
+			std := &http.Request{Method: method, Host: "h", URL: &url.URL{Path: path}, Header: http.Header{}, Body: &vReqBody{data: make([]byte, blen)},
+				ContentLength: int64(blen), RemoteAddr: "9.9.9.9:1"}
 			w := &vWriter{hdr: http.Header{}}
 			m.inst.Load().(*muxInstance).serveHTTP(w, std)
 			st[i] = w.status
@@ -76,6 +79,9 @@ func verifC12_ServeCache() {
 			}
 		}
 		verifAssert(st[0] == st[1], "same-status-with-cache")
+		if blen == 3 && st[0] == 413 && k > 0 {
+			verifCover("oversized-body-on-a-later-request")
+		}
 		verifAssert(called[0] == called[1], "same-backend-with-cache")
 		verifAssert(seen[0] == seen[1], "same-rewritten-path-with-cache")
 		if k > 0 && vCacheHits > 0 {
